@@ -5,7 +5,7 @@
    solution-set theorem C04_best_never_worse (Properties_C04). *)
 From Coq Require Import List ZArith Bool Arith.
 From OmplV Require Import PisModel PisProofs LedgerModel LedgerProofs RrtModel RrtProofs RrtConnectModel RrtConnectProofs LpaModel LpaProofs.
-From OmplV Require RrtStarModel RrtStarCost RrtStarCost2 RrtStarCalls.
+From OmplV Require RrtStarModel RrtStarCost RrtStarCost2 RrtStarCalls EstModel EstProofs.
 Import ListNotations.
 
 (* a fresh query hands out every valid in-bounds start exactly once, in order, then reports that none is left *)
@@ -111,6 +111,26 @@ Theorem C03_rrtstar_resumed_solves_report_real_paths :
          (snd (RrtStarCalls.star_solves St C dist clt cadd c0 mcost sym csat steer maxd mv sat gdist goal_state dflt bias kof starts calls)).
 Proof. exact RrtStarCalls.star_solves_spec. Qed.
 
+(* geometric::EST is an instance of the family as well (EstModel: the node to expand from is what the PDF selects, clamped into the tree;
+   an extension is the candidate state if checkMotion accepts it): any number of solve() calls, any inputs per call — whatever the PDF,
+   the neighbourhood counts and the density test made of the tape — leave a tree of validated motions and real reports *)
+Theorem C03_est_resumed_solves_report_real_paths :
+  forall (St D : Type) (dlt : D -> D -> bool) (mv : St -> St -> bool) sat gdist (dflt : St),
+  (forall a b c, dlt a b = true -> dlt b c = true -> dlt a c = true) -> (forall a, dlt a a = false) ->
+  forall starts (calls : list (list (nat * St))) tree0 new_starts, RrtProofs.TInv St unit (gEdge St mv) starts tree0 -> (forall x, In x new_starts -> In x starts) ->
+  tree0 ++ map (fun x => (x, None)) new_starts <> [] ->
+  let res := tree_calls St D (nat * St) unit dlt (EstModel.est_select St) (EstModel.est_extend St mv) sat gdist dflt tree0 new_starts calls in
+  RrtProofs.TInv St unit (gEdge St mv) starts (fst res) /\
+  Forall (fun rep => exists base tree, report_ok St D unit sat gdist dlt dflt (gEdge St mv) starts base tree rep /\ RrtProofs.TInv St unit (gEdge St mv) starts tree /\
+                                       exists ext, fst res = tree ++ ext) (snd res).
+Proof.
+  intros St D dlt mv sat gdist dflt Htr Hir. apply (tree_calls_spec St D (nat * St)%type unit dlt (EstModel.est_select St) (EstModel.est_extend St mv) sat gdist dflt (gEdge St mv) Htr Hir).
+  - intros n i. unfold EstModel.est_extend. destruct (rrt_extend St (fun _ r => r) mv n (snd i)) as [[d e]|] eqn:Ex; [|exact I].
+    split; [apply (rrt_extend_ok St (fun _ r => r) mv n (snd i) d e Ex)|exact I].
+  - intros tree i H. apply EstProofs.est_select_lt. exact H.
+Qed.
+
+Print Assumptions C03_est_resumed_solves_report_real_paths.
 Print Assumptions C03_rrtstar_resumed_solves_report_real_paths.
 Print Assumptions C03_rrtconnect_resumed_solves_report_real_paths.
 Print Assumptions C03_lpastar_queue_invariants_after_every_history.
